@@ -86,7 +86,8 @@ def run_tlc(workdir, module, cfg=None, workers=None, timeout=3600, extra=(), fil
     for src, name in files:
         shutil.copyfile(src, os.path.join(workdir, name))
     meta = tempfile.mkdtemp(prefix="meta-", dir=workdir)
-    cmd = ["timeout", str(timeout), "java", "-XX:+UseParallelGC", "-Xss256m", "-Xmx%dg" % int(os.environ.get("VERIF_TLC_GB", "8"))]
+    cmd = ["timeout", str(timeout), "java", "-XX:+UseParallelGC", "-Xss256m", "-Xmx%dg" % int(os.environ.get("VERIF_TLC_GB", "8")),
+           "-Djava.io.tmpdir=" + meta]      # (TLC's own temporary files stay inside the scratch directory)
     cmd += list(jvm)
     cmd += ["-cp", "/opt/veriftools/tla/tla2tools.jar:/opt/veriftools/tla/CommunityModules-deps.jar",
             "tlc2.TLC", "-workers", str(workers or NCPU), "-metadir", meta, "-noGenerateSpecTE", "-maxSetSize", "50000000",
